@@ -190,7 +190,13 @@ BLANK_BEFORE_NEWLINE = ["'''a  \n\n\nb'''", "f'''a \nb'''", "'''a\n\nb'''"]
 # default options whose name is the tail of another option's name: (short, long, value of long)
 SUFFIX_PAIRS = [('bindir', 'sbindir', 'sb'), ('debug', 'b_ndebug', 'if-release'), ('libdir', 'python.platlibdir', 'plat'), ('opt', 'sub:opt', '2')]
 NEWLINE_FILE = 'od\nd.c'                       # a source file whose name contains a newline (written as a multi-line literal)
-BLANK_LITERAL_RE = re.compile(r"'''(?:(?!''')[\s\S])*?(?:[ \t]\n|\n[ \t]*\n)(?:(?!''')[\s\S])*?'''")
+LITERAL_OR_COMMENT_RE = re.compile(r"'''[\s\S]*?'''|'(?:[^'\\\n]|\\.)*'|#[^\n]*")
+
+
+def blank_literals(text: str) -> T.List[str]:
+    """Multi-line literals of a build file with a blank or an empty line before a newline."""
+    return [m.group(0) for m in LITERAL_OR_COMMENT_RE.finditer(text)
+            if m.group(0).startswith("'''") and re.search(r'[ \t]\n|\n[ \t]*\n', m.group(0))]
 
 
 def text_to_tokens(text: str, mp: T.Any) -> T.List[Tok]:
@@ -1014,7 +1020,7 @@ def features(c: T.Dict[str, T.Any], v: T.Dict[str, T.Any]) -> T.List[str]:
         # a multi-line literal with a blank or an empty line before a newline, in a statement that was re-printed
         after = c['log'][step]['files']
         for path, text in before.items():
-            lost = [m.group(0) for m in BLANK_LITERAL_RE.finditer(text) if m.group(0) not in (after.get(path) or '')]
+            lost = [x for x in blank_literals(text) if x not in (after.get(path) or '')]
             if lost and all(re.sub(r'\s+\n', '\n', x) in (after.get(path) or '') for x in lost):
                 out.append('multi-line-literal-with-blank-before-newline')
                 break
@@ -1170,7 +1176,8 @@ def main(chk: Check) -> None:
         'extra_files_rm is not issued for a target whose extra_files is a single string (refused with a warning; neither documented nor pinned)',
         'targets referenced by other targets (link_with) are not removed; CRLF files, foreach-generated targets and subprojects are not generated',
         'tokens of the files are produced by the real Lexer (checked at small scope by C02); statement boundaries by the real Parser',
-        'generated projects whose expressions the reference evaluator rejects (index out of range, ...) are skipped by the judge',
+        'generated projects whose expressions the reference evaluator rejects (index out of range, ...) are skipped by the judge; so are '
+        'projects where an operand of ?: / and / or that is never evaluated would fail (the static interpreter of the rewriter evaluates all operands)',
     ]
 
 
